@@ -157,6 +157,14 @@ class Sym:
         return self.text
 
 
+_CMP = {
+    ast.Eq: lambda a, b: a == b, ast.NotEq: lambda a, b: a != b,
+    ast.Lt: lambda a, b: a < b, ast.LtE: lambda a, b: a <= b,
+    ast.Gt: lambda a, b: a > b, ast.GtE: lambda a, b: a >= b,
+    ast.In: lambda a, b: a in b, ast.NotIn: lambda a, b: a not in b,
+}
+
+
 def const_eval(node, env=None, sym_attrs=True, sym_names=False):
     if sym_names:
         return _const_eval_sym_names(node, env or {}, sym_attrs)
@@ -228,6 +236,17 @@ def _const_eval(node, env=None, sym_attrs=True):
         return _BIN[type(node.op)](
             _const_eval(node.left, env, sym_attrs), _const_eval(node.right, env, sym_attrs)
         )
+    if isinstance(node, ast.BoolOp):
+        vals = [_const_eval(v, env, sym_attrs) for v in node.values]
+        return all(vals) if isinstance(node.op, ast.And) else any(vals)
+    if isinstance(node, ast.Compare) and all(type(o) in _CMP for o in node.ops):
+        left = _const_eval(node.left, env, sym_attrs)
+        for o, c in zip(node.ops, node.comparators):
+            right = _const_eval(c, env, sym_attrs)
+            if not _CMP[type(o)](left, right):
+                return False
+            left = right
+        return True
     if isinstance(node, ast.Call):
         fn = dotted(node.func)
         if fn == "len" and len(node.args) == 1:
